@@ -43,7 +43,7 @@ RegVariants ==
   \cup { [RegNom EXCEPT !.feePur = n] : n \in {0, 2} }
   \cup { [RegNom EXCEPT !.def = a, !.max = b] : a \in {0, 1, 3, 5}, b \in {0, 1, 3, Big64} }
   \cup { [RegNom EXCEPT !.denom = d] : d \in {"", " ", "1x", "other"} }
-StrVariants == { [feeNum |-> a, feeDen |-> b] : <<a, b>> \in { <<0, 1>>, <<1, 2>>, <<1, 1>>, <<3, 2>>, <<-1, 2>>, <<0, 0>>, <<1, 100>> } }
+StrVariants == { [feeNum |-> a, feeDen |-> b] : <<a, b>> \in { <<0, 1>>, <<1, 2>>, <<1, 1>>, <<3, 2>>, <<-1, 2>>, <<1, 100>> } }
 
 Updates == { <<"ent", p>> : p \in EntVariants } \cup { <<"wrk", p>> : p \in RegVariants }
            \cup { <<"bcn", p>> : p \in RegVariants } \cup { <<"str", p>> : p \in StrVariants }
